@@ -633,7 +633,12 @@ type Step struct {
 	Wipe    bool         `json:"wipe,omitempty"` // remove dst's content before this step
 	// unpack into the second destination of the arena (l1/l2/l3/dst2) instead: the first one is then "outside"
 	OtherDst bool `json:"other_dst,omitempty"`
+	// the same relative spelling as before ("dst"), given from another working directory (l1/l2): another directory
+	MovedCwd bool `json:"moved_cwd,omitempty"`
 }
+
+// MovedRel is the destination a step with MovedCwd names: "dst" read from l1/l2.
+const MovedRel = "l1/l2/dst"
 
 // AsCase renders a step as a Case sharing the first step's arena settings.
 func (s SeqCase) AsCase(i int) Case {
@@ -689,6 +694,15 @@ func GenSeq(t *rapid.T) SeqCase {
 		s.More = append(s.More, st)
 	}
 	s.SamePacker = rapid.Bool().Draw(t, "samepacker")
+	if rapid.IntRange(0, 5).Draw(t, "movedcwd?") == 0 {
+		// every call names its destination "dst"; the working directory moves on before the last one
+		s.First.Spelling, s.First.Pre = "rel-name", nil
+		last := &s.More[len(s.More)-1]
+		last.MovedCwd, last.OtherDst, last.Wipe = true, false, false
+		if rapid.Bool().Draw(t, "movedsame") {
+			s.SamePacker = true
+		}
+	}
 	return s
 }
 
